@@ -769,6 +769,34 @@ fn respellings(s: &str) -> Vec<String> {
         out.push(format!("{sign}{a}.{b}"));
         out.push(format!("{sign}{a}.{b}00"));
     }
+    // exponents written with leading zeros (what C's %e and many other printers emit: 1e-07,
+    // 1E+007) and with an explicit sign: the same numbers, in an otherwise unchanged spelling
+    let mut padded_exponents = Vec::new();
+    for r in &out {
+        if let Some(i) = r.find(['e', 'E']) {
+            let (m, e) = r.split_at(i);
+            let digits = e[1..].trim_start_matches(['+', '-']);
+            let esign = if e[1..].starts_with('-') { "-" } else { "" };
+            for pad in ["0", "00", "000"] {
+                padded_exponents.push(format!("{m}{}{esign}{pad}{digits}", &e[..1]));
+                if esign.is_empty() {
+                    padded_exponents.push(format!("{m}{}+{pad}{digits}", &e[..1]));
+                }
+            }
+        }
+    }
+    out.extend(padded_exponents);
+    // the canonical (ECMAScript) rendering itself with a padded exponent
+    {
+        if let Some(js) = canon::canonical_number(s) {
+            if let Some(i) = js.find('e') {
+                let (m, e) = js.split_at(i);
+                let (esign, digits) = if let Some(d) = e[1..].strip_prefix('-') { ("-", d) } else { ("+", e[1..].trim_start_matches('+')) };
+                out.push(format!("{m}e{esign}0{digits}"));
+                out.push(format!("{m}E{esign}00{digits}"));
+            }
+        }
+    }
     out.retain(|r| {
         // only valid JSON numbers (no leading zeros such as 00.5)
         let m = refmodel::pda::scan(r);
